@@ -162,7 +162,7 @@ func cmdCheck(args []string) int {
 		writeEvidence(evPath, *prop, *tier, seed, nil, nil, eng, time.Since(start).Seconds(), violations, []string{"load failed: " + err.Error()})
 		return 1
 	}
-	timeout := 10
+	timeout := 20
 	if *tier == "thorough" {
 		timeout = 30
 	}
